@@ -11,8 +11,19 @@ Require Import TL.Model.CtxBridge.
 Lemma ty_eqb_true_iff a b : ty_eqb a b = true <-> a = b.
 Proof. split; [apply ty_eqb_eq|intros ->; apply ty_eqb_refl]. Qed.
 
-Lemma unwrap_idem t : unwrap (unwrap t) = unwrap t.
-Proof. induction t; cbn [unwrap]; try reflexivity; assumption. Qed.
+(* The key family is per environment: inspection.unwrap goes through the alias objects of E (Build.unwrap E). *)
+Section Env.
+Variable E : env.
+Local Notation unwrap := (Build.unwrap E).
+Local Notation getitem := (Build.getitem E).
+Local Notation ctx_get := (Build.ctx_get E).
+Local Notation cgetitem := (CtxBridge.cgetitem E).
+Local Notation cstep := (CtxBridge.cstep E).
+Local Notation crun := (CtxBridge.crun E).
+Local Notation cspec_lookup := (CtxBridge.cspec_lookup E).
+Local Notation cspec_run := (CtxBridge.cspec_run E).
+Local Notation cspec_final := (CtxBridge.cspec_final E).
+Local Notation cops_ok := (CtxBridge.cops_ok E).
 
 Lemma fref_tot_ref a : is_ref a = false -> is_ref (fref_tot a) = true.
 Proof. unfold fref_tot. destruct a; cbn [fref is_ref]; intros H; try discriminate H; reflexivity. Qed.
@@ -25,7 +36,7 @@ Proof. constructor.
   - intros a b c H1 H2. apply ty_eqb_eq in H1. apply ty_eqb_eq in H2. subst. apply ty_eqb_refl.
   - intros a b H. apply ty_eqb_eq in H. subst. reflexivity.
   - intros a b H. apply ty_eqb_eq in H. subst. apply ty_eqb_refl.
-  - intros a _. rewrite unwrap_idem. apply ty_eqb_refl.
+  - intros a _. rewrite (unwrap_idem E). apply ty_eqb_refl.
   - exact fref_tot_ref.
   - intros a b k H. apply ty_eqb_eq in H. subst. reflexivity.
 Qed.
@@ -56,8 +67,8 @@ Lemma no_foreign (S : cst) cx k :
   (forall k', cfind S k' = find_key k' cx) -> keys_wf cx = true -> find_key (fref_tot k) cx = None ->
   Ctx.first_named ty routine is_ref names_ty S k = None.
 Proof. intros Hag Hwf Hmiss.
-  destruct (Ctx.first_named ty routine is_ref names_ty S k) as [v|] eqn:E; [|reflexivity]. exfalso.
-  destruct (first_named_in ty routine is_ref names_ty S k v E) as (r & Hin & Hp).
+  destruct (Ctx.first_named ty routine is_ref names_ty S k) as [v|] eqn:Efn; [|reflexivity]. exfalso.
+  destruct (first_named_in ty routine is_ref names_ty S k v Efn) as (r & Hin & Hp).
   apply andb_true_iff in Hp. destruct Hp as [Hr Hn]. unfold names_ty in Hn. apply ty_eqb_eq in Hn.
   destruct (find_in ty routine ty_eqb is_ref unwrap fref_tot names_ty ty_key_laws S r v Hin) as (w & Hw).
   change (Ctx.find ty routine ty_eqb) with cfind in Hw. rewrite Hag in Hw.
@@ -70,7 +81,7 @@ Lemma getitem_is_spec_lookup (S : cst) cx k :
   (forall k', cfind S k' = find_key k' cx) -> keys_wf cx = true ->
   getitem cx k = match cspec_lookup S k with Some r => Core.Ok r | None => Core.Raise EKey end.
 Proof.
-  intros Hag Hwf. unfold getitem, cspec_lookup, spec_lookup, orelse.
+  intros Hag Hwf. unfold Build.getitem, CtxBridge.cspec_lookup, spec_lookup, orelse.
   change (Ctx.find ty routine ty_eqb) with cfind. rewrite !Hag.
   destruct (find_key k cx) as [r|]; [reflexivity|].
   destruct (is_ref k); [reflexivity|].
@@ -140,7 +151,7 @@ Lemma ctx_of_sets cx : ctx_of (sets_of cx) [] = cx.
 Proof. unfold sets_of. induction cx as [|[k r] rest IH]; [reflexivity|]. cbn [rev]. rewrite map_app, ctx_of_app, IH. reflexivity. Qed.
 
 Lemma last_app_single {A} (l : list A) x d : last (l ++ [x]) d = x.
-Proof. induction l as [|a l IH]; [reflexivity|]. cbn [app]. destruct (l ++ [x]) eqn:E; [destruct l; discriminate E|]. exact IH. Qed.
+Proof. induction l as [|a l IH]; [reflexivity|]. cbn [app]. destruct (l ++ [x]) eqn:El; [destruct l; discriminate El|]. exact IH. Qed.
 
 Theorem getitem_iff_run fuel cx k r :
   1 <= fuel -> cops_ok [] (sets_of cx) = true -> keys_wf cx = true ->
@@ -162,7 +173,6 @@ Qed.
 
 (* ---------------------------------------------------------------- routing survives memo writes and overwrites *)
 Section Routing.
-Variable E : env.
 Variable dir : bool.
 Variable noop_leaf : nat -> bool.
 Notation routes := (routes E dir noop_leaf).
@@ -204,7 +214,7 @@ Proof.
       destruct (Ctx.contains ty routine ty_eqb c (unwrap k)).
       * destruct (IH c (unwrap k) Hok) as [H1 H2].
         destruct (Ctx.getitem ty routine ty_eqb is_ref unwrap fref_tot names_ty f c (unwrap k)) as [[v| |] c1]; cbn [fst snd] in *.
-        -- assert (Hr : routes v k) by (apply (routes_norm_eq E dir noop_leaf v (unwrap k) k); [apply norm_unwrap|apply H2; reflexivity]).
+        -- assert (Hr : routes v k) by (apply (routes_aeq E dir noop_leaf v (unwrap k) k); [apply aeq_unwrap|apply H2; reflexivity]).
            split; [apply cset_ok; assumption|]. intros v' H. injection H as <-. exact Hr.
         -- split; [exact H1|intros v' H; discriminate H].
         -- split; [exact H1|intros v' H; discriminate H].
@@ -251,3 +261,5 @@ Proof.
 Qed.
 
 End Routing.
+
+End Env.
